@@ -58,7 +58,7 @@ structure LinkSpec where
 /-- nodes of tree `base` at level `lvl`, in creation order -/
 def Desc.lvlNodes (d : Desc) (base : String) (lvl : Int) : List String :=
   d.routers.flatMap fun r =>
-    if r.name.startsWith base then
+    if r.name == base then
       match r.tree with
       | some tree =>
         if 0 ≤ lvl ∧ lvl.toNat < tree.length then
